@@ -253,7 +253,7 @@ func (d *V2) classify(err error, o *Outcome) {
 var _ = sort.Strings
 
 func (d *V2) keepIn(id int, label string, v any) {
-	if !d.retain || v == nil {
+	if !d.retain || v == nil || id < 0 {
 		return
 	}
 	r := d.kept[id]
@@ -266,7 +266,7 @@ func (d *V2) keepIn(id int, label string, v any) {
 
 // keepOut records a structure returned by the call in progress (d.cur).
 func (d *V2) keepOut(o *Outcome, label string, v any) {
-	if !d.retain || v == nil {
+	if !d.retain || v == nil || curID < 0 {
 		return
 	}
 	r := d.kept[curID]
